@@ -299,6 +299,7 @@ func (d *Driver) workerLoop(w int, chunks chan chunk) {
 			fmt.Fprintf(wp.in, "range %d %d\n", a, ch.b)
 			cur := -1
 			done := false
+			watchdog := false
 			timer := time.NewTimer(d.CaseTO + 60*time.Second) // first case includes Setup
 		loop:
 			for {
@@ -344,10 +345,14 @@ func (d *Driver) workerLoop(w int, chunks chan chunk) {
 						cur = a
 					}
 					a = cur + 1
-					continue
+					watchdog = true
+					break loop
 				}
 			}
 			timer.Stop()
+			if watchdog {
+				continue
+			}
 			if done {
 				a = ch.b
 				continue
